@@ -1,19 +1,52 @@
 (* C11 - Memoization is transparent and makes left recursion terminate.
-   In the specification memoized() is the identity.  The machine with memo tables (flag memo_on,
-   the configuration that is tied to the code by the correspondence run) is compared with that
-   specification on every generated case; the theorems below are about the machine without tables
-   and about the table-free reading, plus the memoization step itself (Proofs/MemoP.v): for any interpreter of the
-   sub-parsers that refines a specification with the register-equivariance property (which [sem] has: Proofs/Shelter.v),
-   a first visit is transparent and caches a valid entry, and a visit that hits a valid entry returns what a re-run
-   would.  Not proved: that every entry stays valid through the whole run (the global induction over the table-using
-   machine); validity across contexts is false of the code (finding F18).  See DESIGN.md sections 6 and 10. *)
-From Chum Require Import Corollaries MemoP.
 
-(* memoized() does not change the specification: acceptance, output, extent, emissions, pending error *)
+   The machine WITH memo tables refines the specification (Proofs/MemoG.v, [refine_memo]: the global induction, every entry
+   of the table stays valid through every combinator), for every grammar in which nothing changes the context (finding F18 is
+   the failure of the theorem beyond that) and every memoized() has its own id (clones share it), every input, error type,
+   mode and start state, on every run that is not cut off by left recursion.  Hence parse / check with tables = without
+   tables.  In the specification memoized() is Memoized::go without its table - the parser runs on an empty register and its
+   pending error is merged back - which is the identity for parsers without recover_with (with it: finding F19).
+   The theorems are about the machine [Q_strict] in which a left-recursive re-entry is flagged ([Panic PLeftRec]) instead of
+   cut off, and a cached entry is only used with at least the fuel of the run that produced it (both proof devices, see
+   Model/Machine.v); that machine and the one tied to the code (flag vector of known_findings.json, memo_on) are run side by
+   side by the correspondence check.  MemoP.v keeps the memoization step for an abstract sub-interpreter. *)
+From Chum Require Import Corollaries MemoP MemoG.
+
+(* THE GLOBAL THEOREM: the table-using machine refines the specification and keeps every table entry valid *)
+Theorem C11_machine_with_memo_tables_refines_the_specification :
+  forall K toks spn mt c0 n m g ctx s r s1,
+    go Q_strict K toks spn n m g ctx s = (r, s1) ->
+    inv toks s -> TV K toks spn mt c0 (memo s) -> WF mt c0 g ctx ->
+    postm K toks spn mt c0 m s r s1 (sem K toks spn n g ctx (cur s) (alt s)).
+Proof. exact refine_memo. Qed.
+
+(* parse / check with memo tables = without: same output; on success every reported error, on failure the primary error *)
+Theorem C11_memo_tables_are_transparent_at_the_top_level :
+  forall K toks spn mt n m g o errs o' errs',
+    wfm mt g [] ->
+    run_top Q_strict K toks spn n m g = TRes o errs -> run_top no_quirks K toks spn n m g = TRes o' errs' ->
+    o = o' /\ (o <> None -> errs = errs') /\
+    last errs (expected_found K [] None (spn 0 0)) = last errs' (expected_found K [] None (spn 0 0)).
+Proof. exact memo_run_top_transparent. Qed.
+
+(* and from any state: verdict, value, end position, reported errors, pending error and user state *)
+Theorem C11_memo_tables_are_transparent :
+  forall K toks spn mt c0 n m g ctx s r s1 r' s1',
+    inv toks s -> TV K toks spn mt c0 (memo s) -> WF mt c0 g ctx ->
+    go Q_strict K toks spn n m g ctx s = (r, s1) -> go no_quirks K toks spn n m g ctx s = (r', s1') ->
+    answered r -> answered r' ->
+    r = r' /\ alt s1 = alt s1' /\ (r <> Err -> cur s1 = cur s1' /\ sec s1 = sec s1' /\ ust s1 = ust s1').
+Proof. exact memo_tables_transparent. Qed.
+
+(* In the specification memoized() is what Memoized::go is without its table: the parser runs on an empty register and its
+   pending error is merged back.  That does not change anything - acceptance, output, extent, emissions, pending error -
+   for a parser without recover_with / extension parsers, wherever it answers (with recover_with inside, the reported error
+   differs: finding F19) *)
 Theorem C11_memoized_is_identity_in_the_specification :
-  forall K toks spn n id x ctx p a,
+  forall K toks spn n id x ctx p a o new, norec x = true -> envok ctx -> wfr a ->
+    sem K toks spn n x ctx p None = Some (o, new) ->
     sem K toks spn (S n) (Memo id x) ctx p a = sem K toks spn n x ctx p a.
-Proof. reflexivity. Qed.
+Proof. exact sem_memo_identity. Qed.
 
 (* the table-free machine refines that specification also through Memo nodes *)
 Theorem C11_table_free_machine_is_specified :
@@ -58,8 +91,20 @@ Proof. exact memo_hit_transparent. Qed.
 (* with tables: a left-recursive grammar whose recursive step is memoized terminates (fuel 40 suffices
    for these inputs) where the table-free reading diverges; and on a grammar without left recursion
    the table-using machine returns what the table-free one returns *)
+(* non-vacuity of the global theorem's class: a grammar with nested, adjacent and cloned memoized parsers under recursion *)
+Example C11_class_example :
+  let inner := Just [97%N] in
+  let g := Rec (Or (Then (Memo 1 inner) (Memo 2 (Then (Memo 1 inner) (OrNot (Var 0))))) (Memo 1 inner)) in
+  let mt := fun id => match id with
+                      | 1 => Some (inner, [Or (Then (Memo 1 inner) (Memo 2 (Then (Memo 1 inner) (OrNot (Var 0))))) (Memo 1 inner)])
+                      | 2 => Some (Then (Memo 1 inner) (OrNot (Var 0)), [Or (Then (Memo 1 inner) (Memo 2 (Then (Memo 1 inner) (OrNot (Var 0))))) (Memo 1 inner)])
+                      | _ => None end in
+  wfm mt g [] /\
+  run_top Q_strict KRich [97; 97; 97]%N (fun a b => (a, b)) 30 Emit g = run_top no_quirks KRich [97; 97; 97]%N (fun a b => (a, b)) 30 Emit g.
+Proof. split; [cbn; repeat split; reflexivity | vm_compute; reflexivity]. Qed.
+
 Example C11_example :
-  let on := mkQ false false false false false false false false true None in
+  let on := mkQ false false false false false false false false true false None in
   let lr := Rec (Or (Memo 1 (Then (Var 0) (Then (Just [43%N]) (Just [97%N])))) (Just [97%N])) in
   fst (go on KRich [97; 43; 97]%N (fun a b => (a, b)) 40 Check lr env0 init_st) = Ok None
   /\ sem KRich [97; 43; 97]%N (fun a b => (a, b)) 40 lr env0 0 None = None
@@ -69,12 +114,15 @@ Proof. repeat split; vm_compute; reflexivity. Qed.
 
 (* the unchanged code (flag q_memo_take) loses the pending error of a failing memoized parser: finding F5 *)
 Example C11_F5_refuted :
-  let take := mkQ false false false false false false false true true None in
+  let take := mkQ false false false false false false false true true false None in
   let g := Or (Then (Just [97%N]) (Memo 1 (Just [98%N]))) (Just [120%N]) in
   run_top take KRich [97; 99]%N (fun a b => (a, b)) 20 Emit g
     <> run_top no_quirks KRich [97; 99]%N (fun a b => (a, b)) 20 Emit g.
 Proof. vm_compute. discriminate. Qed.
 
+Print Assumptions C11_machine_with_memo_tables_refines_the_specification.
+Print Assumptions C11_memo_tables_are_transparent_at_the_top_level.
+Print Assumptions C11_memo_tables_are_transparent.
 Print Assumptions C11_memoized_is_identity_in_the_specification.
 Print Assumptions C11_table_free_machine_is_specified.
 Print Assumptions C11_running_sheltered_and_merging_back_is_running_directly.
